@@ -48,6 +48,13 @@ func HarnessC03Pipeline() {
 	}
 	quitAt := -1
 	add(req)
+	if shape == "repeat" {
+		// the same request again, then the same command with fresh arguments (state left behind by a request must not stall a later one)
+		add(req)
+		args2 := vLooseArgs(maxArgs, maxLen, kw)
+		add(vReq(append([][]byte{[]byte(cmd)}, args2...)...))
+		vsymCover("repeat")
+	}
 	if shape == "quit" {
 		quitAt = len(ends)
 		add(vReqS("QUIT"))
@@ -118,5 +125,43 @@ func HarnessC03Pipeline() {
 	if len(h.calls) > 0 {
 		vsymCover("handler-called")
 	}
+	vsymCover("end")
+}
+
+func init() {
+	vsymHarnesses["HarnessC03Stateful"] = HarnessC03Stateful
+}
+
+// HarnessC03Stateful: a pipeline of n requests that touch state kept by the framework itself
+// (configuration, selected database, authorisation) with symbolic parameters - so that the same
+// parameter/value can recur - followed by PING. Every request is answered; nothing stalls.
+func HarnessC03Stateful() {
+	n := vsymParamInt("requests", 3)
+	vsymUnwind(300)
+	server := NewServer()
+	server.SetCommandHandler(&vhandler{mode: 0})
+	var in []byte
+	for i := 0; i < n; i++ {
+		switch vsymChoice("request", 6) {
+		case 0:
+			in = append(in, vReq([]byte("CONFIG"), []byte("SET"), vsymBytes("param", 1), vsymBytes("value", 1))...)
+		case 1:
+			in = append(in, vReq([]byte("CONFIG"), []byte("GET"), vsymBytes("param", 1))...)
+		case 2:
+			in = append(in, vReq([]byte("CONFIG"), []byte("SET"), []byte("port"), []byte("6379"))...)
+		case 3:
+			in = append(in, vReq([]byte("SELECT"), vsymBytes("db", 1))...)
+		case 4:
+			in = append(in, vReq([]byte("AUTH"), vsymBytes("pw", 1))...)
+		case 5:
+			in = append(in, vReq([]byte("CONFIG"), []byte("SET"), []byte("requirepass"), vsymBytes("value", 1))...)
+		}
+	}
+	in = append(in, vReqS("PING")...)
+	conn := newVconn(in)
+	server.receive(conn, nil)
+	ends, ok := vStrictStream(conn.out)
+	vsymAssert(ok && len(ends) == n+1, "one-reply-per-request")
+	vsymAssert(conn.closed, "connection-closed-at-end")
 	vsymCover("end")
 }
